@@ -71,7 +71,8 @@ DEFAULT_KINDS = (
 # descriptions with punctuation that means something elsewhere (colons, brackets, quotes, '#', '%', braces, '=', '*')
 PUNCT_TEMPLATES = ("%s: %s", "%s:", "%s (in %s)", "%s, %s; %s", "%s - %s", "%s/%s ratio", "`%s` %s", "the '%s' %s",
                    'the "%s" %s', "%s #%s here", "%s 100%% %s", "%s {%s} here", "e.g. %s", "i.e. %s one", "%s = %s",
-                   "%s > %s", "%s * %s", "%s_%s name", "3 %s", "see http://x.y/%s")
+                   "%s > %s", "%s * %s", "%s_%s name", "3 %s", "see http://x.y/%s", "%s {{%s}} here", "an empty {} %s", "%s } %s",
+                   "%s %%s and %%(name)s", "caf\u00e9 %s \u03bb", "%s \u2014 %s", "%s {0} and {name!r}")
 # str defaults with characters that are delimiters elsewhere (every one of these round-trips on the unchanged tree)
 STRODD = ["it's", "100%", "{x}", "#tag", "a:b", "a=b", "a,b", "(x)", "[x]", "x;y", " lead", "trail ", "a|b", "True", "5", "-3",
           "1.5"]
@@ -96,7 +97,7 @@ def quoted_doc(r):
 
 def punct_doc(r):
     t = r.choice(PUNCT_TEMPLATES)
-    return t % tuple(r.choice(WORDS) for _ in range(t.count("%s")))
+    return t % tuple(r.choice(WORDS) for _ in range(len(re.findall(r"(?<!%)%s", t))))
 
 
 def rand_doc(r, n=None, trigger=False, multiline=False, stop=None, long=False):
